@@ -37,7 +37,7 @@ variable {I : Sys → Prop} {cfg : Cfg}
 attribute [local irreducible] Engine.lookup Engine.latest Engine.store Engine.ack Engine.updateRecord Engine.ctlUpdateMem
   Engine.ctlUpdate Engine.updater Engine.runFn Engine.callbackApi Engine.maybePauseMem Engine.maybePause Engine.stepHandle
   Engine.inserterFn Engine.hookHandle Engine.deleteHandle Engine.retryHandle Engine.handle Engine.deliver Engine.recvOp
-  Engine.processTimeout Engine.pollOp Engine.call Engine.tryM Engine.modifySys
+  Engine.processTimeout Engine.pollGate Engine.pollTimer Engine.pollOp Engine.inserterOne Engine.inserterOutcome Engine.deleteObj Engine.stepRun Engine.stepGate Engine.callbackGate Engine.callbackOne Engine.call Engine.tryM Engine.modifySys
 
 theorem Pres.lookup (rid : RunId) : Pres I (lookup rid) := by
   intro env st hi
@@ -71,6 +71,16 @@ theorem Pres.updater (h : StableH I cfg) (c n : Status) (run : Rec) (o : Obj) : 
   unfold Engine.updater
   repeat (first | exact Pres.updateRecord h _ | exact Pres.lookup _ | pres_core)
 
+theorem Pres.callbackGate (h : StableH I cfg) (status : Status) (wr : Rec) (runner : Rec → M (Except Abort FnRes × Rec))
+    (hr : ∀ r, Pres I (runner r)) : Pres I (callbackGate cfg status wr runner) := by
+  unfold Engine.callbackGate
+  repeat (first | exact hr _ | exact Pres.updater h _ _ _ _ | pres_core)
+
+theorem Pres.callbackOne (h : StableH I cfg) (fid : Fid) (status : Status) (runner : Rec → M (Except Abort FnRes × Rec))
+    (hr : ∀ r, Pres I (runner r)) : Pres I (callbackOne cfg fid status runner) := by
+  unfold Engine.callbackOne
+  repeat (first | exact Pres.latest _ | exact Pres.callbackGate h _ _ _ hr | pres_core)
+
 /-- user functions (with re-entrant `Callback`s to any depth) and the callback API -/
 theorem Pres.runFn_callbackApi (h : StableH I cfg) (fuel : Nat) :
     (∀ kind run mem first, Pres I (runFn cfg kind run mem fuel first)) ∧
@@ -88,7 +98,8 @@ theorem Pres.runFn_callbackApi (h : StableH I cfg) (fuel : Nat) :
     refine ⟨hrun, ?_⟩
     intro fid status
     unfold Engine.callbackApi
-    repeat (first | exact Pres.latest _ | exact ih.1 _ _ _ _ | exact Pres.updater h _ _ _ _ | pres_core)
+    refine Pres.forM _ (fun _ => ?_)
+    exact Pres.callbackOne h _ _ _ (fun r => ih.1 _ _ _ _)
 
 theorem Pres.runFn (h : StableH I cfg) (kind : String) (run mem : Rec) (fuel : Nat) (first : Bool) :
     Pres I (runFn cfg kind run mem fuel first) := (Pres.runFn_callbackApi h fuel).1 _ _ _ _
@@ -106,22 +117,44 @@ theorem Pres.maybePause (h : StableH I cfg) (n : Int) (p : Proc) (mem : Rec) (e 
   unfold Engine.maybePause
   repeat (first | exact Pres.maybePauseMem h _ _ _ _ | pres_core)
 
+theorem Pres.stepRun (h : StableH I cfg) (p : Proc) (pa : Int) (record : Rec)
+    (fn : Rec → M (Except Abort FnRes × Rec)) (hfn : ∀ r, Pres I (fn r)) : Pres I (stepRun cfg p pa record fn) := by
+  unfold Engine.stepRun
+  repeat (first | exact hfn _ | exact Pres.maybePause h _ _ _ _ | exact Pres.updater h _ _ _ _ | pres_core)
+
+theorem Pres.stepGate (h : StableH I cfg) (p : Proc) (pa : Int) (e : Event) (record : Rec)
+    (fn : Rec → M (Except Abort FnRes × Rec)) (hfn : ∀ r, Pres I (fn r)) : Pres I (stepGate cfg p pa e record fn) := by
+  unfold Engine.stepGate
+  repeat (first | exact Pres.stepRun h _ _ _ _ hfn | pres_core)
+
 theorem Pres.stepHandle (h : StableH I cfg) (p : Proc) (status : Status) (pa : Int) (e : Event)
     (fn : Rec → M (Except Abort FnRes × Rec)) (hfn : ∀ r, Pres I (fn r)) : Pres I (stepHandle cfg p status pa e fn) := by
   unfold Engine.stepHandle
-  repeat (first | exact Pres.lookup _ | exact hfn _ | exact Pres.maybePause h _ _ _ _ | exact Pres.updater h _ _ _ _ | pres_core)
+  repeat (first | exact Pres.lookup _ | exact Pres.stepGate h _ _ _ _ _ hfn | pres_core)
+
+theorem Pres.inserterOne (h : StableH I cfg) (status : Status) (run : Rec) : Pres I (inserterOne status run) := by
+  unfold Engine.inserterOne
+  have : ∀ now out, Pres I (inserterOutcome status run now out) := by
+    intro now out
+    unfold Engine.inserterOutcome
+    repeat (first | exact Pres.call (fun s hi => h.timerCreate s _ _ _ _ hi) | pres_core)
+  repeat (first | exact this _ _ | pres_core)
 
 theorem Pres.inserterFn (h : StableH I cfg) (status : Status) (run : Rec) : Pres I (inserterFn cfg status run) := by
   unfold Engine.inserterFn
-  repeat (first | exact Pres.call (fun s hi => h.timerCreate s _ _ _ _ hi) | pres_core)
+  repeat (first | exact Pres.inserterOne h _ _ | pres_core)
 
 theorem Pres.hookHandle (rs : RunState) (e : Event) : Pres I (hookHandle cfg rs e) := by
   unfold Engine.hookHandle
   repeat (first | exact Pres.lookup _ | pres_core)
 
+theorem Pres.deleteObj (record : Rec) : Pres I (deleteObj cfg record) := by
+  unfold Engine.deleteObj Engine.customDeleteFn
+  repeat pres_core
+
 theorem Pres.deleteHandle (h : StableH I cfg) (e : Event) : Pres I (deleteHandle cfg e) := by
   unfold Engine.deleteHandle
-  repeat (first | exact Pres.lookup _ | exact Pres.updateRecord h _ | pres_core)
+  repeat (first | exact Pres.lookup _ | exact Pres.updateRecord h _ | exact Pres.deleteObj _ | pres_core)
 
 theorem Pres.retryHandle (h : StableH I cfg) (e : Event) : Pres I (retryHandle cfg e) := by
   unfold Engine.retryHandle
@@ -150,9 +183,17 @@ theorem Pres.processTimeout (h : StableH I cfg) (p : Proc) (status : Status) (sh
   unfold Engine.processTimeout
   repeat (first | exact Pres.runFn h _ _ _ _ _ | exact Pres.maybePauseMem h _ _ _ _ | exact Pres.updater h _ _ _ _ | exact Pres.call (fun s hi => h.timerComplete s _ hi) | pres_core)
 
+theorem Pres.pollGate (h : StableH I cfg) (p : Proc) (status : Status) (t : Timer) (r : Rec) : Pres I (pollGate cfg p status t r) := by
+  unfold Engine.pollGate
+  repeat (first | exact Pres.processTimeout h _ _ _ _ | exact Pres.call (fun s hi => h.timerCancel s _ hi) | pres_core)
+
+theorem Pres.pollTimer (h : StableH I cfg) (p : Proc) (status : Status) (t : Timer) : Pres I (pollTimer cfg p status t) := by
+  unfold Engine.pollTimer
+  repeat (first | exact Pres.lookup _ | exact Pres.pollGate h _ _ _ _ | pres_core)
+
 theorem Pres.pollOp (h : StableH I cfg) (p : Proc) (status : Status) (q : Int) : Pres I (pollOp cfg p status q) := by
   unfold Engine.pollOp
-  repeat (first | exact Pres.lookup _ | exact Pres.processTimeout h _ _ _ _ | exact Pres.call (fun s hi => h.timerCancel s _ hi) | exact Pres.call_ro (fun _ => rfl) | pres_core)
+  repeat (first | exact Pres.pollTimer h _ _ _ | exact Pres.call_ro (fun _ => rfl) | pres_core)
 
 theorem Pres.leaseLossOp (h : Stable I cfg) (p : Proc) : Pres I (leaseLossOp cfg p) := by
   unfold Engine.leaseLossOp
